@@ -3,6 +3,7 @@ import ERP.Lemmas.RealOps
 import ERP.Spec.Run
 import ERP.Model.Entry
 import ERP.Lemmas.GenConsts
+import ERP.Lemmas.GenTies
 /-! # C09 — Filtering is total and protocol-conformant
 
 The faithful model makes every way the Python code can raise an explicit `Except.error`
